@@ -129,6 +129,22 @@ def matrix_job(item):
                 rc, err = run_script(which, src, out, cfg, cwd)
                 rows.append({"inputs": which, "config": "%s cwd=%s" % (cfg, "tmp / out".split(" ")[i % 3] if i % 3 < 3 else ""),
                              "rc": rc, "hash": sha_tree(gen.read_tree(out)) if rc == 0 else "failed:" + err[-80:]})
+        # previous runs: the build directory already holds the (newer) output of an earlier run on OTHER inputs and
+        # options; what this run is asked to produce must come out as in an empty directory
+        prev = os.path.join(tmp, "in", "prev.i")
+        with open(prev, "w") as f:
+            f.write("class Prev { Prev(); void stale() const; };\n")
+        for which in ("pybind", "matlab"):
+            out = os.path.join(tmp, "o_prev_" + which)
+            os.mkdir(out)
+            rc0, err0 = run_script(which, prev, out, configs[0], tmp, extra=["--ignore", "Nothing"])
+            rc, err = run_script(which, src, out, configs[0], tmp)
+            tree = gen.read_tree(out)
+            fresh = gen.read_tree(os.path.join(tmp, "o_%s_0" % which)) if os.path.isdir(os.path.join(tmp, "o_%s_0" % which)) else {}
+            if which == "matlab":        # files of the earlier toolbox stay; only what this run produces is compared
+                tree = {k: v for k, v in tree.items() if k in fresh}
+            rows.append({"inputs": which, "config": "after an earlier run on other inputs in the same directory (rc %d)" % rc0,
+                         "rc": rc, "hash": sha_tree(tree) if rc == 0 else "failed:" + err[-80:]})
         # a module split over three files (main + two additional ones): order of initialisers under every hash seed
         extra = []
         for k, body in enumerate(["namespace zz { class Q { Q(); }; }\n", "namespace aa { void g(); }\n", "class Wx { Wx(); };\n"]):
